@@ -581,7 +581,7 @@ def execute(run: Dict[str, Any], golden: Dict[str, Any]) -> Dict[str, Any]:
         extra_trace_files=deep_files,
         buggify_calls=run["buggify"],
         start_after=run["start_after"],
-        step_cap=run.get("step_cap", 6_000_000 if run.get("deep") else 1_500_000),
+        step_cap=run.get("step_cap", 8_000_000 if run.get("deep") else 3_000_000),
     )
     # locks created by lsprotocol modules from now on block in the scheduler, not in C
     import threading as _th
@@ -802,7 +802,7 @@ def execute(run: Dict[str, Any], golden: Dict[str, Any]) -> Dict[str, Any]:
     fns = [thread_fn] * n
     harness: Optional[str] = None
     try:
-        sched.run(fns, wall_timeout=run.get("wall_timeout", 90.0))
+        sched.run(fns, wall_timeout=run.get("wall_timeout", 240.0))
     except TimeoutError as e:
         harness = f"wall timeout: {e}"
     finally:
@@ -930,7 +930,7 @@ def worker_run(task: Dict[str, Any]) -> Dict[str, Any]:
     """Pool task: one simulated run (fork of the zygote)."""
     try:
         golden = golden_for(needed_keys(task))
-        res = _fork_call(execute, (task, golden), task.get("wall_timeout", 90.0) + 30)
+        res = _fork_call(execute, (task, golden), task.get("wall_timeout", 240.0) + 30)
         res["golden_digest"] = core.digest(sorted(golden))
         res["pid"] = os.getpid()
         return res
@@ -1228,9 +1228,9 @@ def main(argv: List[str]) -> int:
 
     try:
         # systematic single-pre-emption sweep first (always completes), then the seeded search under the budget
-        core.run_pool(worker_run, gen_sweep(), on_result=on_result, per_task_timeout=240.0)
+        core.run_pool(worker_run, gen_sweep(), on_result=on_result, per_task_timeout=600.0)
         if len([s_ for s_ in first_fail if rep.kf.match(PROP, s_) is None]) < 4 and len(rep.harness_errors) < 3:
-            core.run_pool(worker_run, gen_and_remember(), on_result=on_result, deadline=time.monotonic() + cfg["budget"], per_task_timeout=240.0)
+            core.run_pool(worker_run, gen_and_remember(), on_result=on_result, deadline=time.monotonic() + cfg["budget"], per_task_timeout=600.0)
     except core.HarnessError as e:
         rep.harness_error(str(e))
 
@@ -1246,7 +1246,7 @@ def main(argv: List[str]) -> int:
         sample = [s for s in run_seeds if s in by_seed][: cfg["det"]]
         try:
             again = core.run_pool(
-                worker_run, [task_by_seed[s] for s in sample], workers=max(2, core.n_workers() // 3), per_task_timeout=240.0
+                worker_run, [task_by_seed[s] for s in sample], workers=max(2, core.n_workers() // 3), per_task_timeout=600.0
             )
             for i, r in again:
                 det_checked += 1
@@ -1344,8 +1344,9 @@ def main(argv: List[str]) -> int:
         "runs_per_hour": int(len(ok_results) / max(wall, 1e-6) * 3600),
         "seeds": {"VERIF_SEED": seed, "first_run_seeds": run_seeds[:5]},
         "steps_total": sum(r.get("steps", 0) for r in ok_results),
-        "steps_max_in_one_run": max([r.get("steps", 0) for r in ok_results] or [0]),
-        "step_cap": {"normal": 1_500_000, "deep": 6_000_000, "fairness": "a thread that ran 100 000 consecutive steps sits out 30 000 steps when another thread is runnable"},
+        "steps_max_in_one_run": {"normal": max([r.get("steps", 0) for r in ok_results if not r.get("deep")] or [0]),
+                                 "deep": max([r.get("steps", 0) for r in ok_results if r.get("deep")] or [0])},
+        "step_cap": {"normal": 3_000_000, "deep": 8_000_000, "fairness": "a thread that ran 100 000 consecutive steps sits out 30 000 steps when another thread is runnable"},
         "forced_fair_switches": sum(r.get("forced_switches", 0) for r in ok_results),
         "context_switches_total": sum(r.get("switches", 0) for r in ok_results),
         "simulated_time": "no clock is read by property-relevant code; the scheduler step counter is the only time "
